@@ -799,8 +799,10 @@ pub fn convert<W: std::io::Write + Send + 'static>(
          modified_time_us: Option<u64>| match File::open(input_file_name) {
             Ok(fi) => {
                 info!(log, "opened file {} {:?}", &input_file_name, &fi);
+                // low mark: a max. sized msg plus the 4 bytes of the next storage header pattern
+                // (the parser checks them to detect corrupt msgs)
                 let buf_reader =
-                    LowMarkBufReader::new(fi, BUFREADER_CAPACITY, DLT_MAX_STORAGE_MSG_SIZE);
+                    LowMarkBufReader::new(fi, BUFREADER_CAPACITY, DLT_MAX_STORAGE_MSG_SIZE + 4);
                 get_dlt_message_iterator(
                     std::path::Path::new(&input_file_name)
                         .extension()
